@@ -77,6 +77,9 @@ pub enum Op {
     /// create (or edit) a path whose name continues the name of a directory with a character that
     /// sorts below the separator (`one.txt`, `one-old/b.txt`, `one extra/c.txt` next to `one/...`)
     DirNameSibling(u16),
+    /// create (or edit) a file in the target `monorail-outputs` (its name begins with the name
+    /// of the output directory, it is not inside it)
+    OutDirSibling(u16),
 }
 
 pub const BIG_SIZES: [usize; 9] = [
@@ -129,8 +132,10 @@ pub fn config() -> ConfigSpec {
     let deep = TargetSpec::new("one/deep");
     // `three` encloses `three/sub`: a path that `three/sub` ignores still belongs to `three`
     let three = TargetSpec::new("three");
+    // a target whose name continues the name of monorail's output directory (`monorail-out`)
+    let outputs = TargetSpec::new("monorail-outputs");
     ConfigSpec {
-        targets: vec![one, two, sub, deep, three],
+        targets: vec![one, two, sub, deep, three, outputs],
         ..Default::default()
     }
 }
@@ -386,6 +391,14 @@ impl Hist {
             }
             Op::DirNameSibling(k) => {
                 let names = ["one.txt", "one-old/b.txt", "one extra/c.txt", "two+.md", "three/sub.txt", "three/sub-x/y.txt", "other dir.bak", "one/deep.er"];
+                let p = names[pick(*k, names.len())].to_string();
+                let c = self.fresh(&p);
+                self.env.write_file(&p, &c);
+                self.work.insert(p.clone(), c);
+                format!("edit {:?}", p)
+            }
+            Op::OutDirSibling(k) => {
+                let names = ["monorail-outputs/data.txt", "monorail-outputs/report é.md", "monorail-outputs/deep/x.bin"];
                 let p = names[pick(*k, names.len())].to_string();
                 let c = self.fresh(&p);
                 self.env.write_file(&p, &c);
